@@ -61,7 +61,7 @@ impl Elf {
         lemma_exported_syms_step(p.dynsyms@, p.dynstrtab, base, i);
         assert(is_exported(p.dynsyms@[i]) ==> p.dynsyms@[i].st_value + base <= u64::MAX && p.dynstrtab.valid_at(p.dynsyms@[i].st_name));
     }
-//@ after 0 `sym.st_value + self.base_address(), ));`
+//@ before 0 `} } v }`
     proof {
         lemma_views_push(v0, v@[v@.len() - 1]);
         assert(v@ =~= v0.push(v@[v@.len() - 1]));
@@ -108,7 +108,7 @@ impl Elf {
         lemma_value_syms_step(p.dynsyms@, p.dynstrtab, base, i);
         assert(p.dynsyms@[i].st_value != 0 ==> p.dynsyms@[i].st_value + base <= u64::MAX && p.dynstrtab.valid_at(p.dynsyms@[i].st_name));
     }
-//@ after 0 `sym.st_value + self.base_address(), ));`
+//@ before 0 `} } for sym in it1:`
     proof {
         lemma_views_push(v0, symbols@[symbols@.len() - 1]);
         assert(symbols@ =~= v0.push(symbols@[symbols@.len() - 1]));
@@ -133,7 +133,7 @@ impl Elf {
         lemma_value_syms_step(p.syms@, p.strtab, base, i);
         assert(p.syms@[i].st_value != 0 ==> p.syms@[i].st_value + base <= u64::MAX && p.strtab.valid_at(p.syms@[i].st_name));
     }
-//@ after 1 `sym.st_value + self.base_address(), ));`
+//@ before 0 `} } for rel in it2:`
     proof {
         lemma_views_push(v0, symbols@[symbols@.len() - 1]);
         assert(symbols@ =~= v0.push(symbols@[symbols@.len() - 1]));
@@ -161,7 +161,7 @@ impl Elf {
         assert(p.pltrelocs@[i].r_sym < p.dynsyms@.len() ==> p.pltrelocs@[i].r_offset + base <= u64::MAX
             && p.dynstrtab.valid_at(p.dynsyms@[p.pltrelocs@[i].r_sym as int].st_name));
     }
-//@ after 0 `symbols.push(Symbol::new(name, rel.r_offset + self.base_address()));`
+//@ before 0 `} } vec_sort(`
     proof {
         lemma_views_push(v0, symbols@[symbols@.len() - 1]);
         assert(symbols@ =~= v0.push(symbols@[symbols@.len() - 1]));
@@ -303,7 +303,7 @@ impl Loader for Elf {
         lemma_add_syms_step(e0, p.dynsyms@, p.dynstrtab, base, i);
         assert(is_def_fn(p.dynsyms@[i]) ==> p.dynsyms@[i].st_value + base <= u64::MAX && p.dynstrtab.valid_at(p.dynsyms@[i].st_name));
     }
-//@ after 0 `FunctionEntry::new(sym.st_value + self.base_address, Some(name.to_string())), );`
+//@ before 0 `} } for sym in it1:`
     proof {
         // (conditional, so that a wrong entry makes the named invariant `prefix` fail rather than this hint)
         if entry_matches(function_entries@[sym.st_value], sym_entry(*sym, p.dynstrtab, base)) {
@@ -329,7 +329,7 @@ impl Loader for Elf {
         lemma_add_syms_step(m1, p.syms@, p.strtab, base, i);
         assert(is_def_fn(p.syms@[i]) ==> p.syms@[i].st_value + base <= u64::MAX && p.strtab.valid_at(p.syms@[i].st_name));
     }
-//@ after 1 `FunctionEntry::new(sym.st_value + self.base_address, Some(name.to_string())), );`
+//@ before 0 `} } btree_entry_or_insert_with(`
     proof {
         if entry_matches(function_entries@[sym.st_value], sym_entry(*sym, p.strtab, base)) {
             lemma_insert_matches(c0, add_syms(m1, p.syms@.take(i), p.strtab, base), sym.st_value, function_entries@[sym.st_value], sym_entry(*sym, p.strtab, base));
@@ -364,7 +364,7 @@ impl Loader for Elf {
         assert(user_function_entry == users[i]);
         lemma_add_users_step(m3, users, base, i);
     }
-//@ after 0 `Some(format!("user_function_{:x}", user_function_entry)), ), );`
+//@ before 0 `} } Ok(`
     proof {
         let es = EntrySpec { address: user_function_entry + base, name: EntryName::User(user_function_entry) };
         if entry_matches(function_entries@[user_function_entry], es) {
